@@ -404,7 +404,9 @@ func streamCases(thorough bool) []StreamCase {
 	p.RP = ""
 	add(p)
 	// time patterns: gaps, equal times, sub-precision
-	for _, gaps := range [][]int64{{0}, {1}, {1e9, 1e9}, {0, 0, 5e9}, {3600e9, 1}, {999, 1001}} {
+	for _, gaps := range [][]int64{{0}, {1}, {1e9, 1e9}, {0, 0, 5e9}, {3600e9, 1}, {999, 1001},
+		// out-of-order arrival: later points older than earlier ones, also older than the first one
+		{1e9, -2e9}, {-1e9}, {1e9, -6e9, 8e9, -2500e6, 3500e6}, {-3600e9, 7200e9}} {
 		ps := []P{base()}
 		t := t0
 		for _, g := range gaps {
@@ -435,6 +437,22 @@ func streamCases(thorough bool) []StreamCase {
 		many = append(many, q)
 	}
 	add(many...)
+	// long recordings (the reader works through a 4 KiB buffer): 400 and 1500 points over several dbrps,
+	// line lengths varying
+	for _, n := range []int{400, 1500} {
+		var long []P
+		for i := 0; i < n; i++ {
+			q := base()
+			q.TNs = t0 + int64(i)*1e6
+			q.DB = fmt.Sprintf("database_%d", i%7)
+			q.RP = fmt.Sprintf("rp_%d", i%5)
+			q.Name = fmt.Sprintf("m%d", i%11)
+			q.Tags = map[string]string{"host": fmt.Sprintf("server%03d", i%13), "pad": strings.Repeat("x", 1+i%17)}
+			q.Fields = []Fld{{K: "i", Kind: "i", I: int64(i)}, {K: "s", Kind: "s", S: strings.Repeat("y", i%23)}}
+			long = append(long, q)
+		}
+		add(long...)
+	}
 	_ = thorough
 	return r
 }
@@ -472,6 +490,17 @@ func batchCases() []BatchCase {
 	three := pt(t0+11e9, Fld{Kind: "i", I: 3}, nil)
 	add(mk(nil, false, t0+10e9, one, two), mk(nil, false, t0+20e9), mk(nil, false, t0+20e9, three))
 	add(mk(nil, false, t0+10e9, one, two), mk(nil, false, t0+20e9, three))
+	// points inside a batch carrying tags beyond the group tags, ungrouped batch of tagged points
+	add(mk(map[string]string{"g": "a"}, false, t0+10e9, pt(t0+1e9, Fld{Kind: "f", F: 1}, map[string]string{"g": "a", "cpu": "0"}), pt(t0+2e9, Fld{Kind: "f", F: 2}, map[string]string{"g": "a", "cpu": "1"})))
+	add(mk(nil, false, t0+10e9, pt(t0+1e9, Fld{Kind: "f", F: 1}, map[string]string{"cpu": "0"}), pt(t0+2e9, Fld{Kind: "f", F: 2}, map[string]string{"cpu": "1"})))
+	// many batches (long recording)
+	var many []B
+	for i := 0; i < 300; i++ {
+		many = append(many, mk(map[string]string{"g": fmt.Sprint(i % 5)}, i%2 == 0, t0+int64(i+1)*10e9,
+			pt(t0+int64(i)*10e9+1e9, Fld{Kind: "f", F: float64(i)}, map[string]string{"g": fmt.Sprint(i % 5)}),
+			pt(t0+int64(i)*10e9+2e9, Fld{Kind: "s", S: strings.Repeat("z", i%31)}, map[string]string{"g": fmt.Sprint(i % 5)})))
+	}
+	add(many...)
 	return r
 }
 
